@@ -332,6 +332,8 @@ class Evaluator(object):
         flat = []
         for a in args:
             flat.append(tuple(a) if isinstance(a, list) else a)
+        if isinstance(node.func, ast.Name) and isinstance(path.env.get(node.func.id), Rat) and path.env[node.func.id].key() != "$" + node.func.id:
+            return form.apply("callobj", [path.env[node.func.id]] + flat, kwargs)
         return form.apply("call:" + (rname or norm(node.func)), flat, kwargs)
 
     def ev_ListComp(self, node, path):
